@@ -44,6 +44,24 @@ fn tfn(name: &'static str, log: &Arc<Log>) -> TFn {
     TFn { desc: FnDesc { name, cacheable: false, kind: Kind::Tag, suspend: 0 }, log: log.clone(), plan: Arc::new(FaultPlan::default()) }
 }
 
+/// symbol values are written as integers in the histories; the negative ones stand for values of the other kinds
+/// (a symbol may hold anything, in particular none / false / 0 / "" / empty collections)
+fn sym_value(v: i128) -> Value {
+    match v {
+        -1 => Value::None,
+        -2 => Value::Bool(false),
+        -3 => Value::String(String::new()),
+        -4 => Value::Vec(vec![]),
+        -5 => Value::Map(BTreeMap::new()),
+        -6 => Value::Float(0.0),
+        -7 => Value::Bool(true),
+        -8 => Value::Vec(vec![Value::None]),
+        -9 => Value::Decimal(rust_decimal::Decimal::ZERO),
+        -10 => Value::Duration(chrono::TimeDelta::zero()),
+        _ => Value::Int(v),
+    }
+}
+
 fn rule(name: &str) -> Rule {
     // every rule evaluates to its own name, so outcomes identify their rule by value as well
     Rule::new(name, BTreeMap::new(), Expr::value(name.to_string()))
@@ -127,18 +145,18 @@ fn apply_real(b: Builder, c: &Call, log: &Arc<Log>) -> Result<Builder, Error> {
         Call::Rules(ns) => b.with_rules(ns.iter().map(|n| rule(n)).collect::<Vec<_>>()),
         Call::Function(n) => b.with_function(tfn(n, log)),
         Call::Functions(ns) => b.with_functions(ns.iter().map(|n| Box::new(tfn(n, log)) as Box<dyn UserFunction + Send + Sync + 'static>).collect::<Vec<_>>()),
-        Call::Symbol(n, v) => Ok(b.with_symbol(*n, Value::Int(*v))),
+        Call::Symbol(n, v) => Ok(b.with_symbol(*n, sym_value(*v))),
         Call::Symbols(items) => {
             // both ways of making a symbol table: insert one by one, or From<iterator of pairs>
             let s = if items.len() % 2 == 1 {
                 let mut s = Symbols::default();
                 for (n, v) in items {
-                    s.insert(*n, Value::Int(*v));
+                    s.insert(*n, sym_value(*v));
                 }
                 s
             } else {
                 // From keeps the last of repeated names, like repeated insert
-                Symbols::from(items.iter().map(|(n, v)| (*n, Value::Int(*v))).collect::<Vec<_>>())
+                Symbols::from(items.iter().map(|(n, v)| (*n, sym_value(*v))).collect::<Vec<_>>())
             };
             b.with_symbols(s)
         }
@@ -273,7 +291,7 @@ fn judge_history(ctx: &mut Ctx, calls: &[Call], probe_fns: &[&'static str], prob
     for (i, s) in probe_syms.iter().enumerate() {
         let (_, o) = &outs[n + probe_fns.len() + i];
         let ok = match model.symbols.get(*s) {
-            Some(v) => matches!(o, Obs::Val(Value::Int(x)) if x == v),
+            Some(v) => matches!(o, Obs::Val(x) if crate::refeval::same(x, &sym_value(*v))),
             None => matches!(o, Obs::Err { pay: Pay::Name(x), cls: c, .. } if x == s && *c == crate::refeval::cls::INVALID_SYMBOL),
         };
         ctx.hit(if model.symbols.contains_key(*s) { "probe:symbol-present" } else { "probe:symbol-absent" });
@@ -308,7 +326,7 @@ fn alphabet() -> Vec<Call> {
     vec![
         Call::Rule("a"), Call::Rule("b"), Call::Rules(vec!["a", "b"]), Call::Rules(vec!["b", "b"]), Call::Rules(vec!["c", "a"]),
         Call::Function("f"), Call::Function("g"), Call::Functions(vec!["f", "g"]), Call::Functions(vec!["g", "g"]), Call::Functions(vec!["h", "f"]),
-        Call::Symbol("s", 1), Call::Symbol("s", 2), Call::Symbol("t", 1), Call::Symbols(vec![("s", 3)]), Call::Symbols(vec![("t", 4), ("s", 5)]),
+        Call::Symbol("s", 1), Call::Symbol("s", -1), Call::Symbol("t", 1), Call::Symbols(vec![("s", 3)]), Call::Symbols(vec![("t", -1), ("s", 5)]),
     ]
 }
 
@@ -426,8 +444,8 @@ fn run(ctx: &mut Ctx) {
                 1 => Call::Rules((0..1 + rng.below(3)).map(|_| rn[rng.below(rn.len())]).collect()),
                 2 => Call::Function(fnn[rng.below(fnn.len())]),
                 3 => Call::Functions((0..1 + rng.below(3)).map(|_| fnn[rng.below(fnn.len())]).collect()),
-                4 => Call::Symbol(sn[rng.below(sn.len())], rng.below(100) as i128),
-                _ => Call::Symbols((0..1 + rng.below(3)).map(|_| (sn[rng.below(sn.len())], rng.below(100) as i128)).collect()),
+                4 => Call::Symbol(sn[rng.below(sn.len())], rng.range(-10, 100) as i128),
+                _ => Call::Symbols((0..1 + rng.below(3)).map(|_| (sn[rng.below(sn.len())], rng.range(-10, 100) as i128)).collect()),
             };
             if model.clone().apply(&c).is_err() {
                 // judge the history that ends in this refusal, then carry on without the refused call
@@ -461,11 +479,11 @@ fn run(ctx: &mut Ctx) {
                 1 => Call::Rules((0..1 + rng.below(4)).map(|_| rn2[rng.below(rn2.len())]).collect()),
                 2 => Call::Function(fn2[rng.below(fn2.len())]),
                 3 => Call::Functions((0..1 + rng.below(4)).map(|_| fn2[rng.below(fn2.len())]).collect()),
-                4 => Call::Symbol(sn2[rng.below(sn2.len())], rng.below(1000) as i128),
+                4 => Call::Symbol(sn2[rng.below(sn2.len())], rng.range(-10, 1000) as i128),
                 _ => {
                     let cap = if rng.chance(1, 3) { 60 } else { 12 };
                     let n = 1 + rng.below(cap);
-                    Call::Symbols((0..n).map(|_| (sn2[rng.below(sn2.len())], rng.below(1000) as i128)).collect())
+                    Call::Symbols((0..n).map(|_| (sn2[rng.below(sn2.len())], rng.range(-10, 1000) as i128)).collect())
                 }
             };
             if model.clone().apply(&c).is_err() {
